@@ -84,7 +84,8 @@ def run(ctx):
     for cid, rng in ctx.cases([('exp', i) for i in range(n)]):
         mon.cid = cid
         base = os.path.join(ctx.tmpdir, 'exp')
-        itab, btab, stab, info = excelgen.experiment(rng, base, n_beads=int(rng.integers(0, 3)) if cid[1] % 2 else 1)
+        itab, btab, stab, info = excelgen.experiment(rng, base, n_beads=int(rng.integers(0, 3)) if cid[1] % 2 else 1,
+                                                     force_float_first=cid[1] % 2 == 0)
         np.random.seed(int(rng.integers(1 << 30)))
         with warnings.catch_warnings():
             warnings.simplefilter('ignore')
